@@ -1214,7 +1214,6 @@ def oracle_c10(script: list[list], res: dict, cfg: dict, error_class: Any) -> li
             if must_end and not (ev[0] == 'holdExpired' and st0 == 'OPENCONFIRM'):
                 bad.append(('unanswered', f'{words} in {st0}: the session goes on, nothing is written'))
             continue
-        mine = [k for k in mine if k not in ('UPDATE', 'EOR', 'REFRESH')] if ev[0] == 'recv' else mine
         allowed = error_class(words, st0)
         if not allowed:
             if mine:
